@@ -145,6 +145,47 @@ func check(args []string) int {
 		fmt.Printf("  obligation %s: %s\n", v.Obligation, v.Reason)
 		fmt.Printf("VIOLATION property=%s replay=%s%s\n", prop, path, suffix)
 	}
+	if *tier == "thorough" && replayObl == "" && nviol == 0 && len(rep.Broken) == 0 {
+		// the deeper half of the thorough tier: re-run this property's mutant corpus (seeded changes, hand-written
+		// must-fail edits, semantics-preserving must-stay-green edits) to show that the green result above is not
+		// vacuous. A mutant that is not as expected means the check cannot be trusted (exit 2).
+		ms, err := gov.LoadMutants(filepath.Join(*verif, "selftest", "mutants"))
+		if err == nil {
+			var sel []gov.Mutant
+			for _, m := range ms {
+				if m.Prop == prop {
+					sel = append(sel, m)
+				}
+			}
+			gov.CarefulPass = true
+			results := make([]gov.MutantResult, len(sel))
+			sem := make(chan struct{}, 5)
+			done := make(chan int, len(sel))
+			for i, m := range sel {
+				go func(i int, m gov.Mutant) {
+					sem <- struct{}{}
+					results[i] = gov.RunMutant(m, *repo, *verif)
+					<-sem
+					done <- i
+				}(i, m)
+			}
+			for range sel {
+				<-done
+			}
+			for _, r := range results {
+				rep.MutantsRun++
+				st := "as expected"
+				if r.OK {
+					rep.MutantsAsExpect++
+				} else {
+					st = "NOT AS EXPECTED: " + r.Detail
+					rep.Broken = append(rep.Broken, fmt.Sprintf("sensitivity mutant %s (expect %s): %s", r.Mutant.ID, r.Mutant.Expect, r.Detail))
+				}
+				rep.MutantDetails = append(rep.MutantDetails, fmt.Sprintf("%s expect=%s: %s %v", r.Mutant.ID, r.Mutant.Expect, st, r.Failed))
+			}
+			fmt.Printf("%s thorough: sensitivity corpus %d/%d mutants as expected\n", prop, rep.MutantsAsExpect, rep.MutantsRun)
+		}
+	}
 	if !*noEvid {
 		if err := gov.WriteEvidence(o, rep, nviol, known); err != nil {
 			fmt.Fprintln(os.Stderr, "gov: cannot write evidence:", err)
